@@ -20,7 +20,40 @@ ASSUMPTIONS = ["theorems: the LZSS round trip (every token list, every input buf
 RULE = ("szdd.plan, kwaj.plan: random plans from gen/vgen (LZSS token streams incl. matches into the pre-filled ring and across the ring wrap; KWAJ methods none/xor/LZSS/LZH/MSZIP; "
         "every combination of optional header fields; LZH length encodings 0-3 per tree); fixtures libmspack/test/test_files/kwajd/*.kwj; non-trivial = payload of at least one byte; distinct by file bytes")
 
+def spec_lzss_cases(ctx):
+    """the LZSS *specification* of the C05 theorem (Lean `Lzss.encode` / `Lzss.expand`, run by the driver as
+    `prim lzssenc`) against the real lzss_decompress: random token lists -> spec bytes -> the implementation must
+    return OK and write exactly the spec's expansion"""
+    import subprocess, tempfile
+    rng = ctx.rng
+    n = 60 if ctx.tier == "quick" else 1500
+    reqs = []
+    for _ in range(n):
+        k = rng.choice([0, 1, 7, 8, 9, 16, 17, 40, 300])
+        toks = []
+        for _ in range(k):
+            if rng.random() < 0.5: toks.append("L%02x" % rng.randrange(256))
+            else: toks.append("M%d:%d" % (rng.choice([rng.randrange(4096), 4078, 4080, 4095, 0]), rng.randrange(3, 19)))
+        reqs.append((rng.choice([0, 2]), toks))
+    with tempfile.NamedTemporaryFile("w", suffix=".case", dir=C.BUILD, delete=False) as tf:
+        tf.write("\n".join("prim lzssenc %d %s" % (m, " ".join(t)) for m, t in reqs) + "\n"); tp = tf.name
+    try:
+        out = [l for l in subprocess.run([C.DRIVER, tp], capture_output=True, text=True).stdout.splitlines() if l.startswith("prim lzssenc")]
+    finally:
+        os.unlink(tp)
+    if len(out) != len(reqs) or any("bad-args" in l for l in out):
+        C.log(f"C05: driver answered {len(out)} of {len(reqs)} prim lzssenc requests"); return
+    lines = []; want = []
+    for (m, _), l in zip(reqs, out):
+        _, _, hx, dg = l.split(" ")
+        lines.append(f"prim lzss {m} {'-' if hx in ('=', '-') else hx}"); want.append(dg)
+    yield lines, dict(family="lzss.spec", want=want, nontrivial=True, sig="lzss.spec-%d" % ctx.seed)
+
 def generate(ctx):
+    yield from spec_lzss_cases(ctx)
+    yield from plan_cases(ctx)
+
+def plan_cases(ctx):
     rng = ctx.rng
     n = 60 if ctx.tier == "quick" else 1500
     for k in range(n):
@@ -70,6 +103,18 @@ def judge(ctx, meta, impl, model):
     crash = [b[0] for b in impl if b[0].startswith(("CRASH", "TIMEOUT"))]
     if crash and (meta["family"].endswith(".plan") or meta["family"] == "kwaj.lzh-tight-tail"):
         return [Finding("violation", "well-formed file: implementation " + crash[0])]
+    if meta["family"] == "lzss.spec":
+        if crash: return [Finding("violation", "spec-encoded LZSS stream: implementation " + crash[0])]
+        got = [C.kv(b[0]) for b in impl if b[0].startswith("prim lzss")]
+        for k, (g, w) in enumerate(zip(got, meta["want"])):
+            if g.get("st") != "0" or g.get("out") != w:
+                fs.append(Finding("violation", f"spec-encoded LZSS stream {k}: lzss_decompress gives st={g.get('st')} out={g.get('out')}, the specification's expansion is {w}"))
+                break
+        if len(got) != len(meta["want"]): fs.append(Finding("mismatch", f"{len(got)} results for {len(meta['want'])} streams"))
+        if model is not None:
+            pm = [b[0] for b in model if b[0].startswith("prim lzss")]; pi = [b[0].split(" edges=")[0] for b in impl if b[0].startswith("prim lzss")]
+            if pm != pi: fs.append(Finding("mismatch", "model and implementation differ on spec-encoded LZSS streams"))
+        return fs
     op = next((b for b in impl if b[0].startswith("open")), None)
     ex = next((C.kv(b[0]) for b in impl if b[0].startswith("extract ")), None)
     if meta["family"].endswith(".plan") or meta["family"] == "kwaj.lzh-tight-tail":
